@@ -729,7 +729,7 @@ func runZeroLenCopy(p *Prog, r *Report) {
 		})
 	}
 	r.Counts["E15.copy-calls"] = n
-	r.ExpectMin("E15.copy-calls", n, 3)
+	r.ExpectMin("E15.copy-calls", n, 2)
 	r.Clauses = append(r.Clauses, "E15 no copy() into a destination made with length 0")
 }
 
@@ -992,7 +992,7 @@ func runByteTrim(p *Prog, r *Report) {
 		})
 	}
 	r.Counts["E6.text-tail-trims"] = n
-	r.ExpectMin("E6.text-tail-trims", n, 2)
+	r.ExpectMin("E6.text-tail-trims", n, 1)
 	r.Clauses = append(r.Clauses, "E6 the last character of recovered text is dropped by its rune width, or by one byte only after that byte was compared with an ASCII constant")
 }
 
@@ -1148,7 +1148,7 @@ func runColumnOrder(p *Prog, r *Report) {
 		})
 	}
 	r.Counts["E6.position-order-comparisons"] = n
-	r.ExpectMin("E6.position-order-comparisons", n, 10)
+	r.ExpectMin("E6.position-order-comparisons", n, 9)
 	r.Clauses = append(r.Clauses, "E6 two positions are ordered by their byte offsets only")
 }
 
